@@ -3,16 +3,16 @@
    git rev-list --objects <wants> --not <haves>).
 
    A scenario is a small repository: a commit graph of DagUniverse, a root tree per
-   commit out of a tiny tree universe (two blobs, two subtrees, shared subtrees,
-   content that can be changed and changed back, a submodule entry, a tree without
-   the directory), two annotated tags on arbitrary objects (a tag may point to the other
+   commit out of a tiny tree universe (three blobs, two two-entry subtrees that share
+   one entry, content and directories that can be changed and changed back, a
+   submodule entry, a tree without the directory), two annotated tags on arbitrary objects (a tag may point to the other
    tag), a want set and a have set (haves may name an object that is not stored).
 
      ReachW = Reach(wants)       Need = Reach(wants) \ Reach(haves)
      contract on the real result:   Need \subseteq Result \subseteq ReachW
 
    Objects are strings: "c1".."c5" commits, "rAA" .. root trees, "sA" "sB" subtrees,
-   "bA" "bB" blobs, "t1" "t2" tags, "zz" an id that is not in the store, "xx" the
+   "bA" "bB" "bC" blobs, "t1" "t2" tags, "zz" an id that is not in the store, "xx" the
    (never stored) submodule commit.  Committer times are not part of Need/ReachW: the
    answers are functions of the graph; times are carried so that the harness builds
    them (the implementation's walk is time-ordered).
@@ -29,7 +29,7 @@
 EXTENDS DagUniverse, TLC, Json, SequencesExt
 
 CONSTANTS N, K, Mode, Samples,
-          NPat      \* grid: number of tree patterns used (1..3)
+          NPat      \* grid: number of tree patterns used (1..4)
 
 \* ------------------------------------------------------------- tree universe
 RootDef == [rAA  |-> [f |-> "bA", d |-> "sA",   m |-> FALSE],
@@ -40,8 +40,12 @@ RootDef == [rAA  |-> [f |-> "bA", d |-> "sA",   m |-> FALSE],
             rB   |-> [f |-> "bB", d |-> "none", m |-> FALSE]]    \* no directory at all
 RootNames == DOMAIN RootDef
 Subs      == {"sA", "sB"}
-Blobs     == {"bA", "bB"}
-SubBlob   == [sA |-> "bA", sB |-> "bB"]
+Blobs     == {"bA", "bB", "bC"}
+\* a subtree has TWO entries: g (differs between sA and sB) and h -> bC (the same in both, and bC
+\* occurs nowhere else).  A directory changed sA -> sB -> sA along a history therefore carries an
+\* unchanged entry next to a changed-and-reverted one: the unchanged blob is introduced only by
+\* the oldest commit that has the directory (a seen directory is not a completely collected one).
+SubBlobs  == [sA |-> {"bA", "bC"}, sB |-> {"bB", "bC"}]
 Tags      == {"t1", "t2"}
 Missing   == "zz"
 
@@ -55,8 +59,8 @@ Stored == Commits \cup RootNames \cup Subs \cup Blobs \cup Tags
 
 TreeClosure(r) ==
   IF r \in RootNames
-    THEN {r, RootDef[r].f} \cup (IF RootDef[r].d = "none" THEN {} ELSE {RootDef[r].d, SubBlob[RootDef[r].d]})
-  ELSE IF r \in Subs THEN {r, SubBlob[r]}
+    THEN {r, RootDef[r].f} \cup (IF RootDef[r].d = "none" THEN {} ELSE {RootDef[r].d} \cup SubBlobs[RootDef[r].d])
+  ELSE IF r \in Subs THEN {r} \cup SubBlobs[r]
   ELSE {r}                                                        \* a blob
 TC == [r \in RootNames \cup Subs \cup Blobs |-> TreeClosure(r)]
 
@@ -85,9 +89,11 @@ Row(sc) == LET R == ReachFn(sc) IN
 \* ------------------------------------------------------------------ domains
 Dags == DagSets(N, K)
 RootSeq == <<"rAA", "rBA", "rAB", "rBB", "rAAm", "rB">>
-\* three tree patterns for the grid: every commit its own tree / A,B,A,B (content changed
-\* and changed back along the numbering) / one tree everywhere
-PatternSeq == <<[c \in 1..N |-> RootSeq[((c - 1) % 6) + 1]],
+\* tree patterns for the grid: no directory at commit 1, then the directory changed and changed
+\* back (sA, sB, sA, ...) with its entry h untouched / every commit its own tree / the file f
+\* changed and changed back / one tree everywhere
+PatternSeq == <<[c \in 1..N |-> IF c = 1 THEN "rB" ELSE IF c % 2 = 0 THEN "rAA" ELSE "rAB"],
+                [c \in 1..N |-> RootSeq[((c - 1) % 6) + 1]],
                 [c \in 1..N |-> IF c % 2 = 1 THEN "rAA" ELSE "rBA"],
                 [c \in 1..N |-> "rAA"]>>
 Patterns == {PatternSeq[i] : i \in 1..NPat}
